@@ -299,12 +299,13 @@ def rewrite_case(rng, case):
 
 
 def c18(report, rng, tier, findings):
-    n = n_cases(tier, 200, 2500)
+    n = n_cases(tier, 400, 4000)
     cases = []
     pairs = []
     for i in range(n):
         nv = rng.choice((1, 2, 2, 3))
-        cfg = gen.Cfg(n_vars=(nv, nv), n_objs=(2, 4 if nv < 3 else 3), depth=3 if nv < 3 else 2, empty_domain=0.0)
+        cfg = gen.Cfg(n_vars=(nv, nv), n_objs=(2, 4 if nv < 3 else 3), depth=3 if nv < 3 else 2, empty_domain=0.0,
+                      select_all=0.3, single_top=0.4)
         base = gen.gen_case(rng, cfg, f'c{i}')
         if len(base['sel']) == 1:
             base['entity'] = True
